@@ -109,6 +109,7 @@ class FnSpec:
         self.subst = []         # (regex, replacement, reason) — declared, logged textual adaptation (R11/R12 family)
         self.impl_match = None
         self.may_fail = []
+        self.no_panic_when = None
         self.concrete_ret = None   # R14: `-> impl '_ + Traits` -> the concrete type the body constructs
         self.opens = None
         self.returns = None
@@ -263,7 +264,7 @@ def parse_contract_file(path, unit=None, seen=None):
             continue
         st = ln.strip()
         m = re.match(r'^(ret|requires|ensures|decreases|loop|invariant|invariant_except_break|loop_ensures|at_start|at_end|after_loop|before_loop|loop_body_start|loop_body_end|at|attr|tags|as_inherent|'
-                     r'external_body|no_body|loop_hint|subst|impl_match|returns|opens|debug_assert_may_fail|concrete_ret)\b\s*(.*)$', st)
+                     r'external_body|no_body|loop_hint|subst|impl_match|returns|opens|debug_assert_may_fail|concrete_ret|no_panic_when)\b\s*(.*)$', st)
         indent = len(ln) - len(ln.lstrip())
         if m and indent <= 4 or (m and m.group(1) in ('invariant', 'invariant_except_break', 'loop_ensures', 'decreases') and indent <= 8 and cur_clause is None):
             kw, rest = m.group(1), m.group(2)
@@ -346,6 +347,10 @@ def parse_contract_file(path, unit=None, seen=None):
                 cur_fn.may_fail.append(rest.strip().strip('"'))
             elif kw == 'concrete_ret':
                 cur_fn.concrete_ret = rest.strip()
+            elif kw == 'no_panic_when':
+                tg, tx = _tags(rest)
+                cur_fn.no_panic_when = [tg, tx]
+                cur_clause = cur_fn.no_panic_when
             elif kw == 'subst':
                 mm = re.match(r'^/((?:[^/\\]|\\.)*)/\s+/((?:[^/\\]|\\.)*)/\s+(.*)$', rest)
                 if not mm:
@@ -828,6 +833,9 @@ class FnAsm:
             return segs
         body = s[it.body_open:it.body_close + 1]
         opts = {'loop_hints': sp.loop_hints if sp else {}, 'may_fail': sp.may_fail if sp else []}
+        if sp and sp.no_panic_when:
+            # intended panics (assert!/panic!/unreachable!) must be unreachable whenever the documented domain holds at entry
+            opts['panic_call'] = 'verif_panic_outside(Ghost(__verif_dom))'
         if sp and sp.may_fail:
             inv = invariant_conditions()
             for mf in sp.may_fail:
@@ -851,6 +859,9 @@ class FnAsm:
                     raise Undecided('%s: declared substitution /%s/ no longer matches' % (self.qual, rx))
                 self.log.append('SUBST(%s): /%s/ -> /%s/ x%d' % (reason, rx, rep, cnt))
                 body = body2
+        if sp and sp.no_panic_when:
+            body = '{ let ghost __verif_dom: bool = %s;\n' % clean_clause(sp.no_panic_when[1]) + body[1:]
+            self.log.append('no_panic_when: assert!/panic! sites require the domain condition to be false')
         hdrs = rules.loop_headers(body)   # ordinals refer to the rewritten body (R7/R8 add loops in textual order)
         inserts = []   # (pos, order, text, meta)
         if sp:
@@ -1171,6 +1182,12 @@ pub fn verif_debug_panic() -> !
 #[verifier::external_body]
 pub fn verif_nondet_bool() -> bool
 { true }
+
+/// an intended panic in a function that declares `no_panic_when D`: reaching it is only allowed when D was false at entry
+#[verifier::external_body]
+pub fn verif_panic_outside(dom: Ghost<bool>) -> !
+    requires !dom@,
+{ panic!() }
 '''
 
 
